@@ -75,6 +75,17 @@ def spec_of(q):
     return "bulk:%d:%d:%d:%s" % (p["request_id"], p["f1"], p["f2"], oh)
 
 
+def model_user(v3):
+    """The scenario's user as the model's user spec, with the keys already localized (hashlib, RFC 3414 A.2) to the agent's
+    engine id and declared KeyType.Localized: Model.Session then runs the Python layer's logic (deferred user, probes,
+    set_keys, _to_refresh) without repeating 1 MiB password expansions in Gallina (those are the subject of C12)."""
+    acode, akey, pcode, pkey = material(v3)
+    a, p = v3.get("auth"), v3.get("priv")
+    return "%s:%s:%s" % (hx(v3["user"].encode()),
+                         "%d:2:%s" % (ALGC[a[0]], hx(akey)) if a else "0:0:-",
+                         "%d:2:%s" % (PRIVC[p[0]], hx(pkey)) if p else "0:0:-")
+
+
 def replay(rp, sc, rec):
     """-> list of disagreement descriptions (empty when the model reproduces the whole history)."""
     v3 = sc["v3"]
@@ -94,18 +105,50 @@ def replay(rp, sc, rec):
             if s is not None:
                 return s
         return 0
-    if given:
-        seed = next_salt(0, pcode & 63)
-        r = rp.ask("v3new %s %s %d %s %d %s %d" % (v3["engine_id"], hx(v3["user"].encode()), acode, hx(akey), pcode, hx(pkey), seed))
-    else:
-        r = rp.ask("v3new - - 0 - 0 - 0")
+    seed = next_salt(0, pcode & 63)
+    r = rp.ask("pysession %s %s %d" % (v3["engine_id"] if given else "-", model_user(v3), seed))
     if not r.startswith("OK "):
         return ["model refuses the session configuration: " + r]
-    sess = r[3:]
+    pys = r[3:]
     pos = 0
-    deferred = not given
+    tmo = ("TimeoutError", "BlockingIOError")
     for si, (sst, st) in enumerate(zip(sc["steps"], rec["steps"])):
-        for xi, x in enumerate(st.get("exchanges", [])):
+        xs = st.get("exchanges", [])
+        if sst["op"] in ("enter", "refresh"):
+            # SnmpSession.refresh() as a whole, in the model of the Python layer
+            deferred = not pys.endswith(";-")
+            ios = []
+            for xi, x in enumerate(xs[:2]):
+                q = parsed[(si, xi)]
+                if "error" in q or not q.get("pdu"):
+                    out.append("step %d probe %d cannot be parsed (%s)" % (si, xi, q.get("error") or q.get("decrypt_error")))
+                    ios.append("0 0 -")
+                else:
+                    ios.append("%d %d %s" % (q["pdu"]["request_id"], q["msg_id"], ",".join(x["replies"]) or "-"))
+            while len(ios) < 2:
+                ios.append("0 0 -")
+            if not deferred:
+                ios = [ios[1] if len(xs) > 1 else "0 0 -", ios[0]]      # without a deferred user only the second probe exists
+            seed = next_salt(pos + 1, pcode & 63)
+            r = rp.ask("pyrefresh %s %s %s %d" % (pys, ios[0], ios[1], seed))
+            f = r.split(" ")
+            if f[0] == "PANIC" or len(f) < 3:
+                out.append("step %d (%s): the model of refresh() crashes: %s" % (si, sst["op"], r[:120]))
+                break
+            kind = f[0] if f[0] == "RET" else f[1]
+            sent = [] if f[-2] == "sent=-" else f[-2][5:].split(",")
+            pys = f[-1]
+            impl = "RET" if st["kind"] == "RET" else st.get("exc")
+            same_out = kind == impl or (kind in tmo and impl in tmo)
+            if sent != [x["request"] for x in xs]:
+                out.append("step %d (%s): the model of refresh() sends %d probe(s) %s, the session sent %d: %s (model state %s)"
+                           % (si, sst["op"], len(sent), [d[:60] for d in sent], len(xs), [x["request"][:60] for x in xs], pys[:100]))
+            if not same_out:
+                out.append("step %d (%s): the model of refresh() gives %s, the session %s" % (si, sst["op"], kind, impl))
+            pos += len(xs)
+            continue
+        sess = pys.split(";")[0]
+        for xi, x in enumerate(xs):
             q = parsed[(si, xi)]
             spec = spec_of(q)
             if "error" in q or spec is None:
@@ -124,20 +167,12 @@ def replay(rp, sc, rec):
             sess = f[-1]
             x["_model_recv"] = f[0]
             pos += 1
-            if deferred and sst["op"] in ("enter", "refresh") and xi == 0 and f[0] == "DELIVER":
-                seed = next_salt(pos, pcode & 63)
-                r = rp.ask("v3setkeys %s %s %d %s %d %s %d" % (sess, hx(v3["user"].encode()), acode, hx(akey), pcode, hx(pkey), seed))
-                if not r.startswith("OK "):
-                    out.append("model set_keys failed: " + r)
-                else:
-                    sess = r[3:]
-                deferred = False
+        pys = ";".join([sess] + pys.split(";")[1:])
         # outcome of the step vs the model's last receive
-        xs = st.get("exchanges", [])
         if xs and sst["op"] in ("get", "get_many"):
             mr = xs[-1].get("_model_recv")
             impl = "DELIVER" if (st["kind"] == "RET" or st.get("exc") in ("SnmpAuthError", "NoSuchInstance", "SnmpError")) else \
-                ("TIMEOUT" if st.get("exc") in ("TimeoutError", "BlockingIOError") else "FAIL" if st.get("exc") == "SnmpDecodeError" else st.get("exc"))
+                ("TIMEOUT" if st.get("exc") in tmo else "FAIL" if st.get("exc") == "SnmpDecodeError" else st.get("exc"))
             if mr != impl and not (impl == "FAIL" and mr == "DELIVER"):     # a delivered PDU may still fail conversion
                 out.append("step %d (%s): the model's receive loop says %s, the call %s" % (si, sst["op"], mr, impl))
     return out
